@@ -19,7 +19,12 @@ use std::sync::atomic::{AtomicBool, AtomicUsize, Ordering};
 use std::sync::{Arc, Mutex};
 use std::time::Instant;
 
-pub const VERIF_ROOT: &str = "/verif";
+/// Root of the verification tree (`/verif`); overridable for scratch copies.
+pub fn verif_root() -> PathBuf {
+    std::env::var_os("VERIF_ROOT")
+        .map(PathBuf::from)
+        .unwrap_or_else(|| PathBuf::from("/verif"))
+}
 pub const SHARDS: usize = 16;
 
 #[derive(Clone, Copy, Debug, PartialEq, Eq)]
@@ -252,7 +257,7 @@ pub struct KnownFinding {
 }
 
 pub fn load_known_findings(id: &str) -> Vec<KnownFinding> {
-    let path = Path::new(VERIF_ROOT).join("known_findings.txt");
+    let path = verif_root().join("known_findings.txt");
     let Ok(text) = std::fs::read_to_string(path) else {
         return Vec::new();
     };
@@ -273,7 +278,7 @@ pub fn load_known_findings(id: &str) -> Vec<KnownFinding> {
             } else if let Some(v) = tok.strip_prefix("sig=") {
                 sig = v.to_string();
             } else if let Some(v) = tok.strip_prefix("witness=") {
-                witness = Some(Path::new(VERIF_ROOT).join(v));
+                witness = Some(verif_root().join(v));
             }
         }
         if property == id && !sig.is_empty() {
@@ -474,7 +479,7 @@ pub struct RunResult {
 }
 
 fn write_replay<C: Serialize>(id: &str, case: &C, fail: &Fail) -> PathBuf {
-    let dir = Path::new(VERIF_ROOT).join("replays").join(id);
+    let dir = verif_root().join("replays").join(id);
     let _ = std::fs::create_dir_all(&dir);
     let (key, _) = case_key(case);
     let path = dir.join(format!("{key:016x}.json"));
@@ -556,7 +561,7 @@ pub fn run<P: Property>(prop: P, tier: Tier, seed: u64) -> RunResult {
     // ---- tier 1: committed regression corpus (strict)
     {
         let mut ex = Executor::new(&*prop, prop.isolate());
-        for path in json_files(&Path::new(VERIF_ROOT).join("corpus").join(id)) {
+        for path in json_files(&verif_root().join("corpus").join(id)) {
             let case: P::Case = match read_replay(&path) {
                 Ok(c) => c,
                 Err(e) => {
@@ -817,7 +822,7 @@ pub fn run<P: Property>(prop: P, tier: Tier, seed: u64) -> RunResult {
         "violations": violations.len(),
         "known_findings_reproduced": known_lines,
     });
-    let ev_dir = Path::new(VERIF_ROOT).join("evidence");
+    let ev_dir = verif_root().join("evidence");
     let _ = std::fs::create_dir_all(&ev_dir);
     let ev_path = ev_dir.join(format!("{id}.json"));
     if let Err(e) = std::fs::write(&ev_path, serde_json::to_string_pretty(&evidence).unwrap()) {
